@@ -524,6 +524,35 @@ def get_number_of_float_decimals(value):
     return 0
 
 
+def _make_dict_hash_value(value):
+    """Returns the object that represents the given dictionary value in the
+    hash calculated by the ``make_dict_hash`` function.
+
+    Parameters
+    ----------
+    value : object
+        The dictionary value.
+
+    Returns
+    -------
+    obj : object
+        The exact hexadecimal text of the number, if ``value`` is a real number,
+        ``value`` itself otherwise.
+    """
+    if isinstance(value, (str, bytes)):
+        return value
+
+    try:
+        fvalue = float(value)
+        if fvalue == value:
+            # Adding zero turns -0.0 into 0.0, both compare equal.
+            return (fvalue + 0.0).hex()
+    except (TypeError, ValueError, OverflowError):
+        pass
+
+    return value
+
+
 def make_dict_hash(d):
     """Creates a hash value for the given dictionary.
 
@@ -544,6 +573,15 @@ def make_dict_hash(d):
     if not isinstance(d, dict):
         raise TypeError(
             'The d argument must be of type dict!')
+
+    # Numbers are represented by their exact hexadecimal text. Numbers that
+    # compare equal (1, 1.0, numpy.float64(1), -0.0 and 0.0) get the same text,
+    # different numbers get different texts. Python's own hash of numbers
+    # cannot be used for that, because hash(-1) == hash(-2).
+    d = dict([
+        (name, _make_dict_hash_value(value))
+        for (name, value) in d.items()
+    ])
 
     # Python dictionaries preserve the insertion order of their items. The hash
     # must not depend on that order, because two dictionaries holding the same
